@@ -196,7 +196,7 @@ func (a *aoFunc) lower(v ssa.Value, depth int) lb {
 }
 
 func runAppendOnly(c *core.Ctx) []core.Obligation {
-	b := newOb(c, "R-APPENDONLY", "C15")
+	b := newOb(c, "R-APPENDONLY", "C15", "C10")
 	jp := c.Pkg("json")
 	if jp == nil {
 		b.und("package", "-", "json not loaded")
